@@ -110,6 +110,43 @@ def run_benign(prop, var, repo):
         shutil.rmtree(d, ignore_errors=True)
 
 
+def run_seed(prop, seed_dir, repo):
+    """A recorded seeded change (seeded/<id>/patch.diff) replayed as in-memory overlays of the
+    files it touches: the property's rules must report a violation. Nothing is written to the repo."""
+    sid = os.path.basename(seed_dir)
+    res = {"name": "seed:" + sid, "kind": "seeded-change"}
+    patch = os.path.join(seed_dir, "patch.diff")
+    files = [l[6:].strip() for l in open(patch) if l.startswith("+++ b/")]
+    d = side_dir()
+    try:
+        for f in files:
+            os.makedirs(os.path.join(d, "t", os.path.dirname(f)), exist_ok=True)
+            src = os.path.join(repo, f)
+            if os.path.exists(src):
+                shutil.copy(src, os.path.join(d, "t", f))
+        pr = subprocess.run(["patch", "-p1", "-s", "-f", "-d", os.path.join(d, "t"), "-i", patch], stdout=subprocess.PIPE, stderr=subprocess.STDOUT, text=True)
+        if pr.returncode != 0:
+            res.update(status="unapplied", reason="patch does not apply to the current tree (the tree moved on): " + pr.stdout.strip()[:120])
+            return res
+        args = [RR, "-prop", prop, "-tier", "quick", "-repo", repo, "-verif", d]
+        for f in files:
+            args += ["-overlay", "%s=%s" % (f, os.path.join(d, "t", f))]
+        rc, out = run(args)
+        viol = []
+        vp = os.path.join(d, "evidence", prop + ".violations.json")
+        if os.path.exists(vp):
+            viol = json.load(open(vp))["violations"]
+        if "type/parse errors" in out or "loader" in [v["rule"] for v in viol]:
+            res.update(status="mutant-does-not-compile", detail=out[-400:])
+        elif rc == 1 and viol:
+            res.update(status="fired", reported=", ".join(sorted({v["rule"] + " " + v["construct"] for v in viol}))[:300])
+        else:
+            res.update(status="silent", detail="exit=%d" % rc)
+        return res
+    finally:
+        shutil.rmtree(d, ignore_errors=True)
+
+
 def main():
     prop, repo = sys.argv[1], (sys.argv[2] if len(sys.argv) > 2 else "/repo")
     t0 = time.time()
@@ -159,9 +196,12 @@ def main():
         alt_f = [ex.submit(alt, a) for a in alts]
         can_f = [ex.submit(run_canary, prop, c, repo) for c in cans]
         ben_f = [ex.submit(run_benign, prop, b, repo) for b in bens]
+        import glob as _glob
+        seed_f = [ex.submit(run_seed, prop, sd, repo) for sd in sorted(_glob.glob(os.path.join(VERIF, "seeded", prop + "-*")))]
         thorough["alt_configs"] = [f.result() for f in alt_f]
         thorough["canaries"] = [f.result() for f in can_f]
         thorough["benign_variants"] = [f.result() for f in ben_f]
+        thorough["seeded_changes"] = [f.result() for f in seed_f]
 
     for a in thorough["alt_configs"]:
         print("alt-config %s: exit=%s obligations=%s violations=%d" % (a["config"], a["exit"], a["obligations"], len(a["violations"])))
@@ -179,6 +219,10 @@ def main():
         print("canary %-40s %s%s" % (cres["name"], cres["status"], (" -> " + cres.get("reported", "")) if cres["status"] == "fired" else (" (" + str(cres.get("reason", cres.get("detail", "")))[:200] + ")")))
         if cres["status"] in ("silent", "mutant-does-not-compile"):
             silent.append(cres["name"])
+    for sres in thorough.get("seeded_changes", []):
+        print("seeded %-40s %s%s" % (sres["name"], sres["status"], (" -> " + sres.get("reported", "")) if sres["status"] == "fired" else (" (" + str(sres.get("reason", sres.get("detail", "")))[:200] + ")")))
+        if sres["status"] == "silent":
+            silent.append(sres["name"])
     for bres in thorough.get("benign_variants", []):
         print("benign %-40s %s %s" % (bres["name"], bres["status"], str(bres.get("detail", bres.get("reason", "")))[:300]))
         if bres["status"] in ("false-alarm", "mutant-does-not-compile"):
